@@ -4,6 +4,7 @@ import re
 from .facts import path_ends, loc, strip_generics, vt_walk, vt_str
 from . import common as K
 from . import eff as E
+from . import inline as IN
 
 LEVEL = ("Static structural conditions of schedule-independent determinism: no ambient source of nondeterminism (OS/thread RNG, entropy, "
          "wall clock, environment, thread identity, RandomState values, static mut / interior-mutable statics / thread locals) is called "
@@ -81,12 +82,27 @@ def r1(F, R, P):
         ncalls, len(F.statics), len(AMBIENT), len(amb) + len(static_items(F))))
     # clock readings
     worker = worker_body(F)
+    cg = F.callgraph()
+    roots = [x.path for nm in ("draw", "expanded_draw", "set_position") for x in F.trait_method_impls("chain::Chain", nm)]
+    roots += [x.path for x in F.trait_method_impls("sampler::Settings", "new_chain")]
+    for tr in ("ChainStorage", "TraceStorage", "StorageConfig"):
+        roots += [x.path for x in F.bodies.values() if x.parent.get("trait") and path_ends(x.parent["trait"], tr)]
+    chain_reach = cg.reachable(roots)
+    if worker is not None:
+        # helpers called by the worker (other than through the roots above) count as chain code too
+        chain_reach |= cg.reachable([worker.path]) - {worker.path}
+    clock_w = []
+    if worker is not None:
+        for bb, t in worker.calls():
+            if CLOCK.search(K.callee_path(t)):
+                clock_w.append((worker, bb, t))
+    clock = [(b, bb, t) for (b, bb, t) in clock if not (worker is not None and b.path == worker.path)] + clock_w
     for (b, bb, t) in clock:
         p = K.callee_path(t)
         site = "%s @%s" % (b.path, loc(t["span"]))
         key = "%s:%s" % (b.path, p.split("::")[-1])
-        if not b.path.startswith("sampler::"):
-            R.bad("C10-R1", key, site, "clock read outside the sampler controller: %s" % p)
+        if b.path in chain_reach and not (worker is not None and b.path == worker.path):
+            R.bad("C10-R1", key, site, "clock read in code reachable from a chain / storage / new_chain (%s): a wall-clock value can influence what is sampled or recorded" % p)
             continue
         if worker is not None and b.path == worker.path:
             if p.endswith("::now"):
@@ -109,7 +125,7 @@ def r1(F, R, P):
                         [K.callee_path(u[2]) if u[0] == "call" else u[0] for u in uses][:3]))
         else:
             # controller / Sampler methods: timing of callbacks and timeouts only; must not be a chain or storage body
-            okb = b.path.startswith("sampler::Sampler::") or b.path.startswith("sampler::sample_sequentially")
+            okb = b.path not in chain_reach
             if okb:
                 R.ok("C10-R1", key, site, "controller-side timing (progress callback / timeouts)")
             else:
@@ -223,15 +239,22 @@ def worker_body(F):
     s = spawn_fn(F)
     if s is None:
         return None
-    c = [b for b in K.all_closures_of(F, s.path) if b.calls_to(lambda c: path_ends(c["path"], "Chain::expanded_draw"))]
-    return c[0] if len(c) == 1 else None
+    cache = F.__dict__.setdefault("_worker_body", {})
+    if "w" not in cache:
+        c = []
+        for b in K.all_closures_of(F, s.path):
+            ib = IN.inlined(F, b, IN.sampler_helper)
+            if ib.calls_to(lambda c: path_ends(c["path"], "Chain::expanded_draw")):
+                c.append(ib)
+        cache["w"] = c[0] if len(c) == 1 else None
+    return cache["w"]
 
 
 def controller_scope(F):
     """The closure that creates the trace and starts the chains (calls StorageConfig::new_trace)."""
     c = [b for b in F.bodies.values() if b.kind == "closure" and b.path.startswith("sampler::") and
          b.calls_to(lambda c: path_ends(c["path"], "StorageConfig::new_trace"))]
-    return c[0] if len(c) == 1 else None
+    return IN.inlined(F, c[0], IN.sampler_helper) if len(c) == 1 else None
 
 
 def rng_ctor_calls(b):
